@@ -92,10 +92,12 @@ def hasDupKey : List Bytes → Bool
   | [] => false
   | k :: ks => ks.contains k || hasDupKey ks
 
+def armKey (a : Arm) : Bytes := match a.pat with | .lit k => k | .guardCI k => k
+
 def genFromStr (d : EnumDef) : Except GenErr FromStrImpl :=
   let arms := d.candidates.flatMap (armsOfVariant d)
   let phf := d.candidates.flatMap (phfOfVariant d)
-  let keys := phf.map (fun a => match a.pat with | .lit k => k | .guardCI k => k)
+  let keys := phf.map armKey
   if hasDupKey keys then .error .phfDupKey else
   match d.defaults with
   | [] => .ok ⟨phf, arms, if d.customErr then .errCustom else .errStd,
